@@ -64,7 +64,7 @@ func checkDTFacts(c DTCase) (*Violation, dtFacts) {
 	if got.Panic != "" {
 		return violf("%s panicked: %s", at, got.Panic), f
 	}
-	if isD9(got.Err) && mr.SawD9 {
+	if mr.SawD9 {
 		ev := c17Ev
 		if ev == nil {
 			ev = &Ev{Prop: "C17"}
